@@ -366,7 +366,7 @@ func init() {
 				panic(goPanic{v: Iface{t: types.Typ[types.String], v: Str{s: "invalid argument to Intn"}}, where: w.where(fr)})
 			}
 			v := w.tt.Fresh("mrandn", width)
-			w.logND("math/rand.Intn", "i64", []*Term{v}, 0)
+			w.logND("math/rand.Intn", "env-i64", []*Term{v}, 0)
 			w.assumeNoCheck(w.tt.And(w.tt.Cmp(OpSLe, w.tt.BV(width, 0), v), w.tt.Cmp(OpSLt, v, n)))
 			return v
 		}
@@ -381,6 +381,38 @@ func init() {
 		return w.newFUnit(w.tt.Fresh("mrandf", 1).name)
 	})
 	reg("math/rand.Seed", nop)
+	reg("math/rand.NewSource", func(w *World, t *Thread, fr *frame, fn *ssa.Function, args []Value) Value {
+		pkg := w.prog.ImportedPackage("math/rand")
+		rt := pkg.Type("rngSource").Object().Type()
+		cell := new(Value)
+		*cell = w.zero(rt)
+		return Iface{t: types.NewPointer(rt), v: cell}
+	})
+	reg("math/rand.New", func(w *World, t *Thread, fr *frame, fn *ssa.Function, args []Value) Value {
+		cell := new(Value)
+		*cell = w.zero(deref(fn.Signature.Results().At(0).Type()))
+		return cell
+	})
+	reg("(*math/rand.Rand).Int63", freshInt(64, true))
+	reg("(*math/rand.Rand).Int31", freshInt(32, true))
+	reg("(*math/rand.Rand).Int", freshInt(64, true))
+	reg("(*math/rand.Rand).Uint32", freshInt(32, false))
+	reg("(*math/rand.Rand).Uint64", freshInt(64, false))
+	reg("(*math/rand.Rand).Seed", nop)
+	reg("(*math/rand.Rand).Float64", func(w *World, t *Thread, fr *frame, fn *ssa.Function, args []Value) Value {
+		return w.newFUnit(w.tt.Fresh("mrandf", 1).name)
+	})
+	mread := func(off int) intrinsic {
+		return func(w *World, t *Thread, fr *frame, fn *ssa.Function, args []Value) Value {
+			b := args[off].([]Value)
+			for i := range b {
+				w.store(&b[i], w.tt.Fresh("mrandb", 8))
+			}
+			return Tuple{w.tt.BV(64, uint64(len(b))), w.nilError()}
+		}
+	}
+	reg("math/rand.Read", mread(0))
+	reg("(*math/rand.Rand).Read", mread(1))
 	reg("math/rand.Shuffle", nop)
 }
 
